@@ -155,6 +155,35 @@ Proof.
   apply frel_ramp_down; try assumption; lra.
 Qed.
 
+Theorem f64_mf_trap_refines (x a b c d : pfloat) : okf x -> okf a -> okf b -> okf c -> okf d ->
+  frel (mf_trap F64_ops x a b c d) (mf_trap (Rnd_ops rnd64) (f2r x) (f2r a) (f2r b) (f2r c) (f2r d)).
+Proof.
+  intros Ox Oa Ob Oc Od.
+  pose proof (frel_f2r _ (proj1 Ox)) as Rx. pose proof (frel_f2r _ (proj1 Oa)) as Ra.
+  pose proof (frel_f2r _ (proj1 Ob)) as Rb. pose proof (frel_f2r _ (proj1 Oc)) as Rc. pose proof (frel_f2r _ (proj1 Od)) as Rd.
+  unfold mf_trap, gtb.
+  rewrite (frel_ltb x b _ _ Rx Rb), (frel_ltb a x _ _ Ra Rx), (frel_ltb c x _ _ Rc Rx), (frel_ltb x d _ _ Rx Rd).
+  cbn [ltb Rnd_ops].
+  destruct (Rltb (f2r x) (f2r b)) eqn:E1.
+  - destruct (Rltb (f2r a) (f2r x)) eqn:E2; [|exact frel_ofZ0].
+    pose proof (Rltb_spec (f2r x) (f2r b)) as S1. rewrite E1 in S1. inversion S1 as [L1|L1].
+    pose proof (Rltb_spec (f2r a) (f2r x)) as S2. rewrite E2 in S2. inversion S2 as [L2|L2].
+    apply frel_ramp_up; try assumption. lra.
+  - destruct (Rltb (f2r c) (f2r x)) eqn:E3; [|exact frel_ofZ1].
+    destruct (Rltb (f2r x) (f2r d)) eqn:E4; [|exact frel_ofZ0].
+    pose proof (Rltb_spec (f2r c) (f2r x)) as S3. rewrite E3 in S3. inversion S3 as [L3|L3].
+    pose proof (Rltb_spec (f2r x) (f2r d)) as S4. rewrite E4 in S4. inversion S4 as [L4|L4].
+    apply (frel_ramp_down x c d); try assumption. lra.
+Qed.
+
+Theorem f64_mf_trap_unit (x a b c d : pfloat) : okf x -> okf a -> okf b -> okf c -> okf d ->
+  ffinite (mf_trap F64_ops x a b c d) = true /\ 0 <= f2r (mf_trap F64_ops x a b c d) <= 1.
+Proof.
+  intros Ox Oa Ob Oc Od. destruct b64_ramp_range as (_ & T & _ & _).
+  destruct (f64_mf_trap_refines x a b c d Ox Oa Ob Oc Od) as [F E].
+  split; [exact F|]. rewrite E. apply T; apply f2r_format.
+Qed.
+
 (* hence: finite and in [0,1] on the float run *)
 Theorem f64_mf_ramps_unit :
   (forall x a b c, okf x -> okf a -> okf b -> okf c ->
